@@ -43,10 +43,19 @@ int c_ad_probapproxinf(int nval, double *unifdata, double *prob)
 /* Main function to run the Anderson-Darling test */
 int c_ad_test(int nval, double *unifdata, double *outputs)
 {
+    int ierr;
+
     /* sort unifdata */
     qsort(unifdata, nval, sizeof(double), compare);
 
     /* Compute AD statistic and p-value and
     * store them in the outputs vector */
-    return ADtest(nval, unifdata, outputs);
+    ierr = ADtest(nval, unifdata, outputs);
+
+    /* The finite sample correction of the probability can overshoot
+     * [0, 1] slightly for very small or very large statistics */
+    if(outputs[1] < 0.) outputs[1] = 0.;
+    if(outputs[1] > 1.) outputs[1] = 1.;
+
+    return ierr;
 }
